@@ -110,7 +110,8 @@ def run_case(c):
             viol.append(dict(kind=kind, msg=msg, **dict(feat, **kw)))
 
     qs = np.array([rng.uniform(-0.5, 0.5, 3), [0.5, 0, 0], [0.25, 0.25, 0], rng.uniform(-0.5, 0.5, 3), [0.1, 0.0, 0.0],
-                   [0.21, 0.13, 0.5], [0.0, 0.0, 0.5], [0.5, 0.5, 0.5]])  # zone-face points: bands stick together there on non-symmorphic / hexagonal cells
+                   [0.21, 0.13, 0.5], [0.0, 0.0, 0.5], [0.5, 0.5, 0.5],  # zone-face points: bands stick together there on non-symmorphic / hexagonal cells
+                   [1.0, 0.0, 0.0], [1.0, -1.0, 2.0]])  # non-zero reciprocal lattice vectors (a band segment ending at Gamma', a q given outside the first zone)
     # reference: the dynamical-matrix object directly
     ref = {"D": [], "lam": []}
     for q in qs:
